@@ -187,3 +187,26 @@ Proof.
     exfalso. apply H. apply assoc_none_iff. exact N.
   - eexists. split; [vm_compute; reflexivity|]. vm_compute. repeat split.
 Qed.
+
+(* ---- kept finding: an alias named like an ATTRIBUTE of the object (ALIASES = {'lags': 'X'}; `lags` is registered by the constructor).
+   Writing through the name reaches the variable (m.lags = 5 fills X) while the attribute entry - which Python's attribute lookup finds
+   BEFORE __getattr__ is ever asked, so it is what `m.lags` returns - stays what it was: the read does not see the write. *)
+Theorem alias_named_like_attribute_refuted :
+  exists am s v,
+    alias_construct [("lags", "X")] [] = Ret am /\ WFam am /\ Inv s /\
+    reg_mem "lags" (registry s) = true /\ assoc "lags" (adict s) = Some (OScalar (PInt 0)) /\
+    snd (alias_step am (SetAttr "lags" v None) s) = Ret tt /\
+    assoc "X" (vars (fst (alias_step am (SetAttr "lags" v None) s))) <> assoc "X" (vars s) /\
+    assoc "lags" (adict (fst (alias_step am (SetAttr "lags" v None) s))) = Some (OScalar (PInt 0)) /\
+    alias_getitem am (KName "lags") (fst (alias_step am (SetAttr "lags" v None) s)) = Ret [PFlt (FHalf 10); PFlt (FHalf 10); PFlt (FHalf 10)]%Z.
+Proof.
+  exists (mkAobj [("lags", "X")] []), (fst mA), (OScalar (PInt 5)).
+  split; [vm_compute; reflexivity|]. split; [split; vm_compute; [reflexivity|constructor]|]. split; [exact mA_inv|].
+  vm_compute. repeat split. intros C. discriminate C.
+Qed.
+
+(* export with other column selections: to_dataframe(use_aliases=True, status=False, include_internal=True) *)
+Example export_with_selections :
+  export_with am3 false true true (fst mA) = Ret [("A", "X"); ("y", "Y"); ("Z", "Z"); ("iterations", "iterations")] /\
+  export_with am3 false false false (fst mA) = Ret [("A", "X"); ("y", "Y"); ("Z", "Z")].
+Proof. vm_compute. split; reflexivity. Qed.
